@@ -235,19 +235,44 @@ def Mon.init : Mon := ⟨[], []⟩
 inductive SEv
   | draw (ct : Content) (row col : Nat)
   | erase (ct : Content) (pos : Option (Nat × Nat))
-  /-- the terminal reported an error for image `id` -/
-  | error (id : Nat)
+  /-- the terminal reported an error for image `id` (and, if given, its placement `placement`) -/
+  | error (id : Nat) (placement : Option Nat)
   | other
   deriving Repr
+
+/-! ### cursor addressing (`CSI row ; col H`), as far as the property needs it: where a re-draw goes -/
+
+/-- after `ESC [`: `digits ; digits H` → zero-based (row, col) -/
+def parseCup (rest : List UInt8) : Option (Nat × Nat) :=
+  let a := rest.takeWhile isDigit
+  match rest.dropWhile isDigit with
+  | c :: r2 =>
+    if c = 59 then
+      let b := r2.takeWhile isDigit
+      match r2.dropWhile isDigit with
+      | d :: _ => if d = 72 ∧ a ≠ [] ∧ b ≠ [] then some (readNat a - 1, readNat b - 1) else none
+      | [] => none
+    else none
+  | [] => none
+
+/-- target of the first cursor-position command of a byte stream -/
+def cursorTarget : List UInt8 → Option (Nat × Nat)
+  | [] => none
+  | b :: rest => if b = 27 ∧ rest.head? = some 91 then parseCup rest.tail else cursorTarget rest
+
+/-- placement ids this client hands out (32 bit, non-zero); anything else in a response is foreign -/
+def ownPlacement (p : Nat) : Bool := 1 ≤ p && p < 4294967296
 
 def chunkRules (chunks : List Nat) : Bool := chunks.all (· ≤ 4096) && chunks.all (· % 4 == 0)
 
 /-- rules that hold for every command whatever event caused it: ids are never 0; pixel data is RGBA,
-uncompressed, of the declared size, in legal chunks, and not sent again while the terminal holds it;
+uncompressed, of the declared size, in legal chunks, and not sent again while the terminal holds it —
+neither under the same id nor, the same pixel content, under any other id;
 a placement refers to an image the terminal holds; deletions are by image id (`d=i`, data kept) -/
 def Mon.feed (m : Mon) : KCmd → Option Mon
   | .transmit display id fmt w h comp data chunks =>
-    if id ≠ 0 ∧ display = false ∧ fmt = 32 ∧ comp = none ∧ (m.live.lookup id).isNone ∧ chunkRules chunks
+    if id ≠ 0 ∧ display = false ∧ fmt = 32 ∧ comp = none ∧ (m.live.lookup id).isNone
+        ∧ m.live.all (fun e => e.2 != ⟨w, h, data⟩) ∧ chunkRules chunks
         ∧ data.length = 4 * (w * h) ∧ 0 < w ∧ 0 < h
     then some { m with live := (id, ⟨w, h, data⟩) :: m.live } else none
   | .put id pid => if id ≠ 0 ∧ pid ≠ 0 ∧ (m.live.lookup id).isSome then some m else none
@@ -270,7 +295,7 @@ def Mon.step (m : Mon) (ev : SEv) (bytes : List UInt8) : Option Mon :=
   | none => none
   | some cmds =>
     let m0 : Mon := match ev with
-      | .error id => { m with live := m.live.filter (fun e => e.1 != id) }
+      | .error id _ => { m with live := m.live.filter (fun e => e.1 != id) }
       | _ => m
     match m0.feedAll cmds with
     | none => none
@@ -297,6 +322,15 @@ def Mon.step (m : Mon) (ev : SEv) (bytes : List UInt8) : Option Mon :=
           then some { m1 with placed := m1.placed.filter (fun p => !deletes what.toNat id pid (p.id, p.pid)) }
           else none
         | _, _ => none
+      | .error id (some p) =>
+        -- a re-draw answering an error response that names one of our placements must restore that
+        -- placement: same image, same placement id, at the position where it was made
+        if cmds = [] ∨ ownPlacement p = false then some m1
+        else match drawShape cmds, cursorTarget bytes, m1.live.lookup id with
+          | some (id', pid'), some (row, col), some ct =>
+            if id' = id ∧ pid' = p ∧ m1.placed.all (fun q => !(q.id == id && q.pid == p) || (q.row == row && q.col == col))
+            then some { m1 with placed := ⟨ct, row, col, id, p⟩ :: m1.placed } else none
+          | _, _, _ => none
       | _ => some m1
 
 /-- run the monitor over a history of (event, bytes the handler wrote for it) -/
